@@ -57,7 +57,7 @@ func init() {
 			"cause = errors.Cause chain or errors.Is"},
 		Flavours: releaseThenGo126,
 		Required: []string{"cut/k=0", "cut/in-header", "cut/k=32", "cut/in-body", "readerr/alone", "readerr/with-data", "writefault/in-header", "writefault/at-32", "writefault/in-body",
-			"writefault/eager", "writefault/transient", "cut/big-frame>1MiB", "corrupt/hsize!=32", "corrupt/bsize>=2^63", "corrupt/bsize-huge", "corrupt/bsize-beyond-stream", "corrupt/complete-frame-ok", "random/short", "random/bitflip"},
+			"writefault/eager", "writefault/transient", "writefault/body>32KiB", "cut/big-frame>1MiB", "corrupt/hsize!=32", "corrupt/bsize>=2^63", "corrupt/bsize-huge", "corrupt/bsize-beyond-stream", "corrupt/complete-frame-ok", "random/short", "random/bitflip"},
 		Families: func(c *mon.Config) []mon.Family {
 			nc := c07Corpus(c)
 			return []mon.Family{
@@ -65,6 +65,7 @@ func init() {
 				{Name: "read-errors", N: nc, Run: c07ReadErrors},
 				{Name: "write-faults", N: nc, Run: c07WriteFaults},
 				{Name: "big-frames", N: 4 * len(c07Kinds), Run: c07BigFrames},
+				{Name: "write-faults-big", N: 3 * len(c07Kinds), Run: c07WriteFaultsBig},
 				{Name: "corrupt-headers", N: (len(c07HSizes) + 2) * (len(c07BSizes) + 3), Run: c07CorruptHeaders},
 				{Name: "random-bytes", N: c.Pick(100000, 8000000), Run: c07RandomBytes},
 			}
@@ -505,5 +506,51 @@ func c07BigFrames(w *mon.W, idx int) {
 	}
 	w.Sample(func() interface{} {
 		return mon.D{"fault": "truncation of a frame with a body around 1 MiB", "body_len": n - 32, "cuts": len(cuts)}
+	})
+}
+
+// c07WriteFaultsBig: writer quotas on frames with bodies of 32 KiB .. 70 KB (where a frame writer may
+// switch between one coalesced Write and separate header/body Writes): quotas around every plausible
+// threshold and sampled ones, all three failure styles.
+func c07WriteFaultsBig(w *mon.W, idx int) {
+	r := w.Rng
+	size := []int{32768, 32769, 70000}[idx%3]
+	c := pbCase{Kind: c07Kinds[idx/3], Payload: pbPayload(r, size), Ver: "1.0.0"}
+	frame := c.frame()
+	msg := c.msg()
+	n := len(frame)
+	var ks []int
+	for k := 0; k <= 40; k++ {
+		ks = append(ks, k)
+	}
+	for _, c := range []int{4096, 8192, 16384, 32768, 65536} {
+		for d := -2; d <= 34; d++ {
+			ks = append(ks, c+d)
+		}
+	}
+	ks = append(ks, n-3, n-2, n-1)
+	for i := 0; i < 30; i++ {
+		ks = append(ks, 33+r.Intn(n-34))
+	}
+	for _, k := range ks {
+		if k < 0 || k >= n {
+			continue
+		}
+		for style := 0; style < 3; style++ {
+			qw := &quotaWriter{quota: k, eager: style == 1, transient: style == 2, err: errInjectedWrite}
+			w.Op, w.A, w.B = "Marshal(write-fault,big)", int64(k), int64(style)
+			nn, err := pbcmpl.Marshal(qw, msg)
+			w.Eval(1)
+			if int(nn) != k || !pbIs(err, errInjectedWrite) && err != errInjectedWrite || !bytes.Equal(qw.buf.Bytes(), frame[:k]) {
+				w.Fail("writefault/big-body", mon.D{"kind": pbKindNames[c.Kind], "body_len": n - 32, "writer_quota_k": k, "style": style, "returned_n": nn, "err": errStr(err), "bytes_in_writer": qw.buf.Len()})
+				return
+			}
+		}
+		w.Tick()
+		w.Distinct(gen.Hash64(7, uint64(idx), uint64(k)))
+	}
+	w.Bucket("writefault/body>32KiB")
+	w.Sample(func() interface{} {
+		return mon.D{"fault": "writer quota on a frame with a big body", "body_len": n - 32, "quotas": len(ks)}
 	})
 }
